@@ -46,7 +46,7 @@ fn root_pixels(d: &Value) -> (usize, usize, Vec<Px>) {
 
 /// the image as the crate builds it, and (independently, by the harness' own index arithmetic) the
 /// window of the root matrix it is supposed to show: (width, height, row-major pixels)
-fn build(d: &Value) -> (Image, (usize, usize, Vec<Px>)) {
+fn build(d: &Value) -> (Image, Expected) {
     let (h, w, px) = root_pixels(d);
     // from_vec demands a backing vector strictly longer than h*w: used for the "slack" variant only
     let root = if d["slack"].as_bool().unwrap_or(false) {
@@ -69,25 +69,62 @@ fn build(d: &Value) -> (Image, (usize, usize, Vec<Px>)) {
         eh = w;
         ew = h;
     }
-    let mut img = if transposed { Image::new(root.transpose()) } else { Image::from(root) };
-    if let Some(c) = d["crop"].as_array() {
-        let g = |k: usize| c.get(k).and_then(|x| x.as_u64()).unwrap_or(0) as usize;
-        let (r0, r1, c0, c1) = (g(0), g(1), g(2), g(3));
-        img = img.crop(r0..r1, c0..c1);
-        // Python-style slice of a non-negative range: clamp to the axis, empty if start >= end
-        let (r0c, r1c, c0c, c1c) = (r0.min(eh), r1.min(eh), c0.min(ew), c1.min(ew));
-        if r0c < r1c && c0c < c1c {
-            m = (r0c..r1c).map(|r| m[r][c0c..c1c].to_vec()).collect();
-            eh = r1c - r0c;
-            ew = c1c - c0c;
-        } else {
-            m = vec![];
-            eh = 0;
-            ew = 0;
-        }
-    }
+    let img = if transposed { Image::new(root.transpose()) } else { Image::from(root) };
     let flat: Vec<Px> = m.into_iter().flatten().collect();
-    (img, (ew, eh, flat))
+    apply_crop(img, (ew, eh, flat), &d["crop"])
+}
+
+type Expected = (usize, usize, Vec<Px>); // width, height, row-major pixels
+
+/// `Image::crop` on the crate's side; on the expected side the Python-style slice of a non-negative range
+/// (clamp to the axis, empty if start >= end), by the harness' own index arithmetic
+fn apply_crop(img: Image, exp: Expected, crop: &Value) -> (Image, Expected) {
+    let c = match crop.as_array() {
+        Some(c) => c,
+        None => return (img, exp),
+    };
+    let (ew, eh, flat) = exp;
+    let g = |k: usize| c.get(k).and_then(|x| x.as_u64()).unwrap_or(0) as usize;
+    let (r0, r1, c0, c1) = (g(0), g(1), g(2), g(3));
+    let img = img.crop(r0..r1, c0..c1);
+    let (r0c, r1c, c0c, c1c) = (r0.min(eh), r1.min(eh), c0.min(ew), c1.min(ew));
+    if r0c < r1c && c0c < c1c {
+        let out: Vec<Px> = (r0c..r1c).flat_map(|r| flat[r * ew + c0c..r * ew + c1c].to_vec()).collect();
+        (img, (c1c - c0c, r1c - r0c, out))
+    } else {
+        (img, (0, 0, vec![]))
+    }
+}
+
+/// an image of the case: either built on its own (`build`) or, with `"of": k`, a clone of the k-th image of
+/// the case, cropped when `"crop"` is given: a different view of the SAME pixel buffer (what `Image::crop`
+/// and `Clone` hand out shares the `Arc` of the data and whatever else the image carries)
+fn build_in(d: &Value, prior: &[(Image, Expected)]) -> (Image, Expected) {
+    match d["of"].as_u64() {
+        Some(k) if (k as usize) < prior.len() => {
+            let (img, exp) = prior[k as usize].clone();
+            apply_crop(img, exp, &d["crop"])
+        }
+        _ => build(d),
+    }
+}
+
+fn build_all(descs: &[Value]) -> Vec<(Image, Expected)> {
+    let mut built: Vec<(Image, Expected)> = vec![];
+    for d in descs {
+        let b = build_in(d, &built);
+        built.push(b);
+    }
+    built
+}
+
+/// an image with the given content in a buffer of its own (never handed to the handler under test)
+fn standalone(exp: &Expected) -> Image {
+    let (w, h, px) = (exp.0, exp.1, &exp.2);
+    Image::from(SurfaceOwned::new_with(Size::new(h, w), |pos| {
+        let p = px[pos.row * w + pos.col];
+        RGBA::new(p[0], p[1], p[2], p[3])
+    }))
 }
 
 fn graphics_num(bytes: &[u8], key: &str) -> Option<u64> {
@@ -166,7 +203,7 @@ pub fn run(input: &Value) -> Case {
     }
     let quiet = input["quiet"].as_bool().unwrap_or(false);
     let descs: Vec<Value> = input["images"].as_array().cloned().unwrap_or_default();
-    let built: Vec<(Image, (usize, usize, Vec<Px>))> = descs.iter().map(build).collect();
+    let built: Vec<(Image, Expected)> = build_all(&descs);
     // content table: distinct (w, h, pixels)
     let mut contents: Vec<(usize, usize, Vec<Px>)> = vec![];
     let mut cids = vec![];
@@ -253,7 +290,7 @@ pub fn run(input: &Value) -> Case {
                 let id = if o["img"].is_null() || built.is_empty() {
                     o["id"].as_u64().unwrap_or(0)
                 } else {
-                    assigned.get(&cids[k]).copied().unwrap_or_else(|| ids_of(&built[k].0, None).0)
+                    assigned.get(&cids[k]).copied().unwrap_or_else(|| ids_of(&standalone(&built[k].1), None).0)
                 };
                 let pl: Option<u64> = if let Some(p) = vpos(&o["pl"]["pos"]) {
                     if !built.is_empty() {
@@ -266,7 +303,7 @@ pub fn run(input: &Value) -> Case {
                     if built.is_empty() {
                         None
                     } else {
-                        ids_of(&built[k].0, Some(Position::new(p.0, p.1))).1
+                        ids_of(&standalone(&built[k].1), Some(Position::new(p.0, p.1))).1
                     }
                 } else {
                     o["pl"]["raw"].as_u64()
@@ -439,14 +476,20 @@ pub fn run(input: &Value) -> Case {
     // fresh handler gives each of them)
     {
         let mut firsts: Vec<(usize, u64)> = vec![];
-        for (i, (img, c)) in built.iter().enumerate() {
+        for (i, (_, c)) in built.iter().enumerate() {
             if c.0 > 0 && c.1 > 0 && !firsts.iter().any(|(k, _)| *k == cids[i]) {
-                firsts.push((cids[i], ids_of(img, None).0));
+                firsts.push((cids[i], ids_of(&standalone(c), None).0));
             }
         }
         if firsts.iter().any(|(k, d)| firsts.iter().any(|(k2, d2)| k != k2 && d == d2)) {
             tags.push("derived-id-collision".into());
         }
+    }
+    if descs.iter().any(|d| d["of"].is_u64()) {
+        let distinct = descs.iter().enumerate().any(|(i, d)| {
+            d["of"].as_u64().map_or(false, |k| (k as usize) < i && cids[k as usize] != cids[i])
+        });
+        tags.push(format!("views-of-one-buffer={}", if distinct { "different-content" } else { "same-content" }));
     }
     tags.push(format!("via={}", via));
     Case {
@@ -477,7 +520,19 @@ fn img_desc(rng: &mut Rng, big: u8) -> Value {
     } else if big == 1 {
         *rng.pick(&[(32usize, 24usize), (24, 32), (769, 1), (1, 769), (32, 32), (33, 24), (40, 40)])
     } else {
-        match rng.below(20) {
+        match rng.below(21) {
+            // source-boundary stream: a pixel count (and a payload length, 4 bytes per pixel) at a constant written in
+            // src/image.rs or src/encoder.rs or next to it; at most ~1000 pixels so that Coq reads the case in a second or two
+            20 if !boundaries(4100).is_empty() => {
+                // v read as a number of pixels, of raw bytes (4 per pixel) or of base64 characters (16 per 3 pixels)
+                let v = *rng.pick(boundaries(4100)) as usize;
+                let px = match rng.below(3) {
+                    0 if v <= 800 => v,
+                    1 => v / 4,
+                    _ => v * 3 / 16,
+                };
+                if rng.chance(1, 2) { (1, px) } else { (px, 1) }
+            }
             0 => (rng.below(2) as usize * 3, rng.below(2) as usize * 3),
             1 | 2 => (1, 1),
             3 | 4 => (1, 1 + rng.below(6) as usize),
@@ -561,6 +616,66 @@ fn collision_histories(a: &Value, b: &Value) -> Vec<Value> {
     v
 }
 
+/// constants written in the anchored source files and their neighbours, harvested at run time
+fn boundaries(cap: u64) -> &'static [u64] {
+    static ALL: std::sync::OnceLock<Vec<u64>> = std::sync::OnceLock::new();
+    let all = ALL.get_or_init(|| source_boundaries(&["src/image.rs", "src/encoder.rs"], u64::MAX));
+    let n = all.partition_point(|v| *v <= cap);
+    &all[..n]
+}
+
+/// a view of image `j` of the case (whose content is eh x ew): a clone, a full-range crop, a proper window, a tile
+fn view_desc(rng: &mut Rng, j: usize, eh: usize, ew: usize) -> Value {
+    if eh == 0 || ew == 0 || rng.chance(1, 6) {
+        return json!({"of": j});
+    }
+    if rng.chance(1, 8) {
+        return json!({"of": j, "crop": [0, eh, 0, ew]});
+    }
+    let r0 = rng.below(eh as u64) as usize;
+    let r1 = r0 + 1 + rng.below((eh - r0) as u64) as usize;
+    let c0 = rng.below(ew as u64) as usize;
+    let c1 = c0 + 1 + rng.below((ew - c0) as u64) as usize;
+    json!({"of": j, "crop": [r0, r1, c0, c1]})
+}
+
+/// several different views of ONE pixel buffer drawn and erased on one handler: whatever an image carries besides
+/// its shape is shared by `crop` and `clone`
+fn shared_buffer_histories() -> Vec<Value> {
+    let mut v = vec![];
+    let sheet = json!({"h":6,"w":5,"seed":65,"style":0});
+    let win = json!({"of":0,"crop":[2,6,1,4]});
+    // the whole image, then a window of it; and the other way round; erase first
+    v.push(json!({"quiet": false, "images":[sheet.clone(), win.clone()],
+        "ops":[{"op":"draw","img":0,"pos":[0,0]},{"op":"draw","img":1,"pos":[3,9]},{"op":"erase","img":0,"pos":[0,0]},{"op":"erase","img":1,"pos":[3,9]}]}));
+    v.push(json!({"quiet": true, "images":[sheet.clone(), win.clone()],
+        "ops":[{"op":"draw","img":1,"pos":[3,9]},{"op":"draw","img":0,"pos":[0,0]},{"op":"draw","img":1,"pos":[4,9]},{"op":"erase","img":1,"pos":[3,9]}]}));
+    v.push(json!({"quiet": false, "images":[sheet.clone(), win.clone()],
+        "ops":[{"op":"erase","img":1,"pos":[3,9]},{"op":"draw","img":0,"pos":[0,0]},{"op":"draw","img":1,"pos":[3,9]},{"op":"erase","img":0,"pos":Value::Null}]}));
+    // same-size tiles of one sheet
+    let mut imgs = vec![json!({"h":4,"w":6,"seed":46,"style":0})];
+    let mut ops = vec![];
+    for r in 0..2 {
+        for c in 0..3 {
+            imgs.push(json!({"of":0,"crop":[2*r,2*r+2,2*c,2*c+2]}));
+            ops.push(json!({"op":"draw","img":imgs.len()-1,"pos":[10+r,20+c]}));
+        }
+    }
+    ops.push(json!({"op":"erase","img":2,"pos":[10,21]}));
+    ops.push(json!({"op":"draw","img":0,"pos":[0,0]}));
+    ops.push(json!({"op":"draw","img":3,"pos":[5,5]}));
+    v.push(json!({"quiet": true, "images": imgs, "ops": ops}));
+    // crop of a crop, innermost first; a clone and a full-range crop (same content, same id, nothing re-sent)
+    v.push(json!({"quiet": false, "images":[{"h":8,"w":8,"seed":88,"style":3}, {"of":0,"crop":[1,7,1,7]}, {"of":1,"crop":[1,4,2,5]}, {"of":0}, {"of":1,"crop":[0,6,0,6]}],
+        "ops":[{"op":"draw","img":2,"pos":[1,1]},{"op":"draw","img":1,"pos":[2,2]},{"op":"draw","img":0,"pos":[3,3]},{"op":"draw","img":3,"pos":[4,4]},
+               {"op":"draw","img":4,"pos":[5,5]},{"op":"erase","img":2,"pos":[1,1]},{"op":"erase","img":3,"pos":[3,3]}]}));
+    // a transposed sheet, a window of it, an error response for the sheet, then both again
+    v.push(json!({"quiet": false, "via": "box", "images":[{"h":5,"w":7,"seed":57,"style":0,"t":true}, {"of":0,"crop":[1,6,0,3]}],
+        "ops":[{"op":"draw","img":0,"pos":[0,0]},{"op":"draw","img":1,"pos":[8,8]},{"op":"resp","img":0,"pl":{"pos":[0,0]},"err":true,"lost":true},
+               {"op":"draw","img":1,"pos":[8,9]},{"op":"draw","img":0,"pos":[0,1]},{"op":"erase","img":1,"pos":[8,8]}]}));
+    v
+}
+
 const CORNERS: [(usize, usize); 8] =
     [(0, 0), (0, 65535), (65535, 0), (65535, 65535), (0, 1), (1, 0), (65534, 65535), (65535, 65534)];
 
@@ -569,6 +684,11 @@ fn gen_pos(rng: &mut Rng, pool: &[(usize, usize)]) -> (usize, usize) {
         0..=23 => *rng.pick(pool),
         24..=31 => *rng.pick(&CORNERS),
         // beyond the 65536 limit of the property's quantifier: compared with the model only
+        32 if rng.chance(1, 2) && !boundaries(u64::MAX).is_empty() => {
+            // source-boundary stream: a coordinate at a constant of the source or next to it
+            let v = *rng.pick(boundaries(u64::MAX)) as usize;
+            if rng.chance(1, 2) { (v, rng.below(3) as usize) } else { (rng.below(3) as usize, v) }
+        }
         32 => (65536 + rng.below(3) as usize, rng.below(3) as usize),
         33 => (rng.below(3) as usize, 65536 * (1 + rng.below(3) as usize) + rng.below(2) as usize),
         34 => (usize::MAX - rng.below(2) as usize, (1usize << 40) + rng.below(70000) as usize),
@@ -586,8 +706,17 @@ fn gen_history(rng: &mut Rng, big: u8, pairs: &[(Value, Value)]) -> Value {
         images = if rng.chance(1, 2) { vec![a, b] } else { vec![b, a] };
         nimg = 2 + rng.below(2) as usize;
     }
+    let shared = big == 0 && !colliding && rng.chance(1, 4);
+    if shared {
+        nimg = 2 + rng.below(3) as usize;
+    }
     for i in images.len()..nimg {
-        if i > 0 && rng.chance(1, 4) {
+        if shared && i > 0 && rng.chance(4, 5) {
+            // a view of an earlier image of the case: same buffer, different window (or a clone)
+            let dims: Vec<(usize, usize)> = build_all(&images).iter().map(|(_, e)| (e.1, e.0)).collect();
+            let j = rng.below(i as u64) as usize;
+            images.push(view_desc(rng, j, dims[j].0, dims[j].1));
+        } else if i > 0 && rng.chance(1, 4) {
             // same content again, built separately (a second allocation must get the same id)
             let d = images[rng.below(i as u64) as usize].clone();
             images.push(d);
@@ -637,6 +766,7 @@ fn gen_history(rng: &mut Rng, big: u8, pairs: &[(Value, Value)]) -> Value {
                 let pl = match rng.below(5) {
                     0 => Value::Null,
                     1 => json!({"raw": *rng.pick(&[0u64, 1, 2, 65536, 65537, 4294967295, 4294967296, u64::MAX]) }),
+                    2 if rng.chance(1, 2) && !boundaries(u64::MAX).is_empty() => json!({"raw": *rng.pick(boundaries(u64::MAX))}),
                     2 => json!({"raw": rng.below(1u64 << 33)}),
                     _ => {
                         let p = gen_pos(rng, &pool);
@@ -733,6 +863,7 @@ pub fn generate(rng: &mut Rng, n: usize, tier: &str) -> Vec<Value> {
             "ops":[{"op":"draw","img":0,"pos":[5,7]},{"op":"resp","img":0,"pl":{"raw":raw},"err":true},
                    {"op":"draw","img":0,"pos":[5,7]},{"op":"erase","img":0,"pos":[5,7]}]}));
     }
+    v.extend(shared_buffer_histories());
     // two contents with one derived image id (the known pair re-verified on this build, and a pair found
     // by a birthday search seeded by the run): id table and transmitted set of the handler differ
     let mut pairs: Vec<(Value, Value)> = vec![];
